@@ -7,9 +7,9 @@ CONSTANTS
  Defect = "none"
  MCCalls = {1, 2}
  Serial = FALSE
- Kinds <- KSrAsync
+ Kinds <- KSr
  Froms <- F1
- Tos <- T23
+ Tos <- T2
  Shapes <- ShFull
  DelimSets <- DNone
  Ctxs <- CxLive
@@ -17,9 +17,9 @@ CONSTANTS
  NSOut <- NSRelay
  WErrs <- ENone
  CWRes <- CWOk
- CRRes <- CRAll
- SRErrs <- SRAll
- HRes <- HMain3
+ CRRes <- CRNoTO
+ SRErrs <- ERelay
+ HRes <- HRF
  SWErrs <- ENone
  MaxTime = 0
  Sto = 0
